@@ -1406,6 +1406,17 @@ fn c12_jobs(r: &mut Rng, w: &World, thorough: bool) -> Vec<VJob> {
     j.verify = s.1.clone().restr("p_age", json!({"schema_name": "gvt"}));
     j.muts = vec![Mut::AddSelf("a_name".into(), "x".into())];
     jobs.push(j);
+    // an honest but unusual combination: one credential serves a restricted predicate and an unrevealed group / unrevealed
+    // single attribute (the restriction stage gathers the values revealed by that credential)
+    for fmt in [Fmt::Legacy, Fmt::W3C] {
+        for (g_rev, a_rev) in [(false, false), (false, true), (true, false)] {
+            let spec = ReqSpec::new(NONCE).group("g", &["name", "height"]).attr("a_sex", "sex").pred("p_age", "age", ">=", 18);
+            for q in [json!({"schema_name": "gvt"}), json!({"attr::name::value": "Alex"}), json!({"attr::sex::marker": "1"})] {
+                let verify = spec.clone().restr("p_age", q);
+                jobs.push(job("targeted:restricted-predicate-with-unrevealed-group", fmt, &spec, &verify, vec![pick(0, &[("g", g_rev), ("a_sex", a_rev)], &["p_age"], None)], w));
+            }
+        }
+    }
     for (t, v) in [("GT", 2147483647i64), ("LT", -2147483648), ("GE", 2147483647), ("LE", -2147483648), ("GT", 2147483646), ("LT", -2147483647)] {
         let mut j = with_shape("targeted:extreme-threshold-inside-proof", Fmt::Legacy, w, s);
         j.muts = vec![Mut::EditProofPred(0, t, v)];
